@@ -49,6 +49,7 @@ theorem mutRun_ty (k : MutK) (o : Obj) (e : EP) (m : ResM (Char × Option Obj ×
   cases k <;> cases o <;> simp only [mutRun, Option.some.injEq, reduceCtorEq] at hm
   case sockListen.sock x => split at hm <;> simp only [Option.some.injEq, reduceCtorEq] at hm; subst hm; val_tac
   case sockConnectRefused.sock x => split at hm <;> simp only [Option.some.injEq, reduceCtorEq] at hm; subst hm; val_tac
+  case sockIoClosed.sock x => split at hm <;> simp only [Option.some.injEq, reduceCtorEq] at hm; subst hm; val_tac
   all_goals (subst hm; val_tac)
 
 theorem deriveRun_ty (k : DeriveK) (o : Obj) (e : EP) (m : ResM (Char × Obj × Option Obj × EP))
